@@ -77,6 +77,11 @@ def classify_stderr(tool, rc, err):
     return None
 
 
+def panic_site(err):
+    m = re.search(r"panicked at ([^\n:]+):(\d+):\d+", err)
+    return (os.path.basename(m.group(1)), m.group(2)) if m else None
+
+
 def diff_sigs(c_out, t_out):
     """line-by-line comparison of observation streams -> list of (sig, what)"""
     cl, tl = c_out.splitlines(), t_out.splitlines()
@@ -137,7 +142,8 @@ class Run:
             if trc != 0:
                 # the Rust API itself panicked: agreement iff the C side aborted on the same op
                 nl = len(tout.splitlines())
-                if cls and cls[0].startswith("c36|panic") and len(out.splitlines()) == nl:
+                if cls and cls[0].startswith("c36|panic") and len(out.splitlines()) == nl and panic_site(err) == panic_site(terr) \
+                        and "/repo/rust/" in terr:
                     res["both_panicked"] += 1
                     res["obs"] += nl
                     res["viol"] += diff_sigs(out, tout)
